@@ -109,6 +109,106 @@ def wb_bench(name, wb_dw=32, port_dw=32, base=0, aw_native=4, write_aborts=False
     return b
 
 
+
+def n2w_bench(name, dw=32, base=0, addressing="word", aw_native=6):
+    """reverse bridge LiteDRAMNative2Wishbone: free native master (contract assumed) -> real bridge -> Wishbone slave stub that
+    acknowledges whenever it likes and really stores one watched byte"""
+    from litex.soc.interconnect import wishbone
+    from litedram.frontend.wishbone import LiteDRAMNative2Wishbone
+    from litedram.common import LiteDRAMNativePort
+    from vlib import memstub
+    nb = dw // 8
+    port = LiteDRAMNativePort("both", aw_native, dw)
+    wb = wishbone.Interface(data_width=dw, adr_width=32 if addressing == "byte" else 30, addressing=addressing)
+
+    class Top(Module):
+        pass
+    top = Top()
+    top.submodules.dut = LiteDRAMNative2Wishbone(port, wb, base_address=base)
+    WA = Signal(aw_native, name_override="WA")
+    WL = Signal(max=nb, name_override="WL")
+    mem = Signal(8, name_override="mem_byte")
+    ref = Signal(8, name_override="ref_byte")
+    env = memstub.NativeUserEnv(port, WA, WL, ref, qdepth=2, flush_input=False, last_input=False)
+    top.submodules.env = env
+    inputs = dict(env.inputs)
+    assumes = dict(env.assumes)
+    bads = dict(env.bads)
+    covers = {}
+    ack_go = Signal(name_override="slave_ack_go")
+    other = Signal(dw, name_override="slave_dat_r_other")
+    inputs.update({"slave_ack_go": ack_go, "slave_dat_r_other": other})
+
+    def expected_adr(a):
+        # what a Wishbone slave mapped at base_address must see for native word address a
+        return (a * nb + base) if addressing == "byte" else (a + base // nb)
+    alen = len(wb.adr)
+    wadr = Signal(alen)
+    hit = Signal()
+    top.comb += [wadr.eq(expected_adr(WA)), hit.eq(wb.adr == wadr)]
+    # slave: combinational acknowledge of a presented access, one byte of real storage
+    top.comb += wb.ack.eq(wb.cyc & wb.stb & ack_go)
+    lanes = []
+    for i in range(nb):
+        lanes.append(Mux(hit & (WL == i), mem, other[8 * i:8 * i + 8]))
+    top.comb += wb.dat_r.eq(Cat(*lanes))
+    top.sync += If(wb.ack & wb.we & hit & memstub.bit_of(wb.sel, WL, nb), mem.eq(memstub.byte_of(wb.dat_w, WL, nb)))
+    pend = Signal()
+    p_we = Signal()
+    p_a = Signal(aw_native)
+    acc = Signal()
+    top.comb += acc.eq(port.cmd.valid & port.cmd.ready)
+    done = Signal()
+    top.comb += done.eq(wb.ack)
+    top.sync += [If(done, pend.eq(0)), If(acc, pend.eq(1), p_we.eq(port.cmd.we), p_a.eq(port.cmd.addr))]
+    one = Signal()
+    top.comb += one.eq(~(acc & pend & ~done))
+    assumes["monitor_follows_one_command_at_a_time(the_bridge_is_serial)"] = one
+    access = Signal()
+    top.comb += access.eq(wb.cyc & wb.stb)
+
+    def addbad(n, e):
+        sg = Signal(name_override="bad_" + n)
+        top.comb += sg.eq(e)
+        bads[n] = sg
+    addbad("wishbone_access_without_a_pending_native_command", access & ~pend)
+    addbad("wishbone_address_is_not_base_plus_commanded_address", access & pend & (wb.adr != expected_adr(p_a)))
+    addbad("wishbone_direction_differs_from_command", access & pend & (wb.we != p_we))
+    addbad("write_select_or_data_differs_from_native_write_data", access & wb.we & ((wb.sel != port.wdata.we) | (wb.dat_w != port.wdata.data)))
+    addbad("read_does_not_select_all_bytes", access & ~wb.we & (wb.sel != 2**nb - 1))
+    addbad("native_write_data_taken_without_acknowledged_write", port.wdata.ready & ~(wb.ack & wb.we))
+    addbad("acknowledged_write_does_not_take_the_native_write_data", wb.ack & wb.we & ~(port.wdata.ready & port.wdata.valid))
+    addbad("native_read_data_without_acknowledged_read", port.rdata.valid & ~(wb.ack & ~wb.we))
+    addbad("acknowledged_read_not_returned_to_native_port", wb.ack & ~wb.we & ~(port.rdata.valid & (port.rdata.data == wb.dat_r)))
+    # classic Wishbone: a presented access stays unchanged until it is acknowledged
+    pv = Signal()
+    pa = Signal(alen)
+    pw = Signal()
+    psel = Signal(nb)
+    pd = Signal(dw)
+    top.sync += [pv.eq(access & ~wb.ack), pa.eq(wb.adr), pw.eq(wb.we), psel.eq(wb.sel), pd.eq(wb.dat_w)]
+    addbad("wishbone_access_changed_or_withdrawn_before_acknowledge",
+           pv & (~access | (wb.adr != pa) | (wb.we != pw) | (wb.sel != psel) | (wb.we & (wb.dat_w != pd))))
+    sw = monitors.Sticky(env.wr_hit)
+    top.submodules += sw
+    cv = Signal()
+    top.comb += cv.eq(env.rd_watched_beat & sw.out)
+    covers["watched_byte_read_back_after_write"] = cv
+    b = bmc.Bench(name, top, inputs, consts={"WA": WA, "WL": WL}, free_init={"mem_byte": mem, "ref_byte": ref},
+                  init_assume=[mem == ref], assumes=assumes, bads=bads, covers=covers,
+                  info=dict(dw=dw, base=base, addressing=addressing, reverse_bridge=True))
+    b.watch = {"cyc": wb.cyc, "stb": wb.stb, "we": wb.we, "adr": wb.adr, "sel": wb.sel, "dat_w": wb.dat_w, "ack": wb.ack, "dat_r": wb.dat_r,
+               "n_v": port.cmd.valid, "n_r": port.cmd.ready, "n_we": port.cmd.we, "n_a": port.cmd.addr, "mem": mem, "ref": ref}
+    return b
+
+
+N2W_CONFIGS = {
+    "native2wishbone_word_32": (dict(dw=32, base=0x40000000, addressing="word"), 16, 30, "qt"),
+    "native2wishbone_byte_32": (dict(dw=32, base=0x40000000, addressing="byte"), 16, 30, "qt"),
+    "native2wishbone_word_64_base0": (dict(dw=64, base=0, addressing="word"), 0, 30, "t"),
+    "native2wishbone_byte_16_oddbase": (dict(dw=16, base=0x1236, addressing="byte"), 0, 30, "t"),
+}
+
 CONFIGS = {
     "abortw_equal_32": (dict(wb_dw=32, port_dw=32, write_aborts=True), 20, 26, "qt"),
     "abortw_wide_32_on_16": (dict(wb_dw=32, port_dw=16, write_aborts=True), 18, 24, "qt"),
@@ -120,6 +220,7 @@ CONFIGS = {
     "wide_32_on_16": (dict(wb_dw=32, port_dw=16), 18, 26, "qt"),
 }
 BENCHES = {n: partial(wb_bench, n, **c[0]) for n, c in CONFIGS.items()}
+BENCHES.update({n: partial(n2w_bench, n, **c[0]) for n, c in N2W_CONFIGS.items()})
 
 
 def run(ctx):
@@ -128,7 +229,9 @@ def run(ctx):
     ctx.assume("memory: in-order native stub with the real crossbar's pulse semantics, arbitrary stalls, latency >= 2, <= 2 queued")
     ctx.assume("benches without the 'abortw_' prefix: the master aborts only read accesses (see the known finding on aborted writes)")
     ctx.assume("an aborted write makes the watched byte's expected value unknown until the next acknowledged write to it; flush "
-               "visibility at the native side when cyc drops and LiteDRAMNative2Wishbone are not covered")
+               "visibility at the native side when cyc drops is not covered")
+    ctx.assume("reverse bridge (native2wishbone_* benches): native master contract as in C07; the Wishbone slave acknowledges any "
+               "presented access whenever it likes (combinational ack), stores one watched byte; equal widths (the bridge asserts ratio 1)")
     for n, (kw, kq, kt, tiers) in CONFIGS.items():
         if ctx.only and not ctx.only.search(n):
             continue
@@ -136,4 +239,11 @@ def run(ctx):
             ctx.add(n, kq, timeout=1200, min_K=14, chunk=3, cover_required=False)
         elif ctx.tier == "thorough":
             ctx.add(n, kt, timeout=3000, min_K=kq or 16, chunk=3, cover_required=False)
+    for n, (kw, kq, kt, tiers) in N2W_CONFIGS.items():
+        if ctx.only and not ctx.only.search(n):
+            continue
+        if ctx.tier == "quick" and "q" in tiers:
+            ctx.add(n, kq, timeout=600, min_K=12, chunk=4)
+        elif ctx.tier == "thorough":
+            ctx.add(n, kt, timeout=1200, min_K=16, chunk=4)
     ctx.run()
